@@ -430,8 +430,9 @@ impl PanicInfo {
             .trim_start_matches("/repo/")
             .rsplit("/.cargo/registry/src/")
             .next()
-            .unwrap_or("")
-            .to_string();
+            .unwrap_or("");
+        // (a dependency: drop the name of the registry mirror, keep "<crate>-<version>/src/...")
+        let file = if self.file.contains("/.cargo/registry/src/") { file.splitn(2, '/').nth(1).unwrap_or(file) } else { file }.to_string();
         let mut msg = String::new();
         let first_line = self.message.lines().next().unwrap_or("");
         let mut last_hash = false;
